@@ -280,7 +280,7 @@ _commute_case("meet.EEE.3d", 3, 3, "hyper", "meet")
 
 
 @case("C07", "commute.PL.EL.3d", names("t", 4, 4) + names("a", 4) + names("b", 4) + names("c", 4), mode="field",
-      functions=FUN + ["geometer.point._join_meet_duality"], assumptions=LEAF, timeout=240, tier="thorough", explore_time=1800)
+      functions=FUN + ["geometer.point._join_meet_duality"], assumptions=LEAF, timeout=240, tier="experimental", explore_time=1800)  # two LinearDependenceError paths whose feasibility the ALG solver cannot decide (36 symbols)
 def commute_pl_el(ctx):
     geometer, gt = _g()
     T = ctx.arr("t", 4, 4)
